@@ -108,6 +108,35 @@ def run(tier, seed):
                 want2 = cl[:len(cd)] == cd
                 if e != want or e != want2:
                     ck.violation("component-boundary", {"kind": "scope"}, {"kind": "scope", "dir": d, "loc": l, "impl": e, "want": want2})
+        # the requested directory: RestoreArgParser against Model.Cmds.restoreScopeDir, for current directories the
+        # sandbox cannot stand in (the root directory above all)
+        from trashcli.restore.restore_arg_parser import RestoreArgParser
+        cwds = ["/", "/p", "/p/q", "/a b", "/caf\u00e9", "/p/", "//", "/p//q", "/p/./q", "/p/../q"]
+        args = ["", "x", "x/y", "/", "/a/b", "/a//b/", "..", "../x", ".", "./x", "x/", "a b", "/a/../b", "//a", "///a"]
+        reqs, exp = [], []
+        for c in cwds:
+            for a in args:
+                got = RestoreArgParser().parse_restore_args(["trash-restore"] + ([a] if a != "" else []), c).path
+                reqs.append({"op": "restoreDir", "cwd": hx(os.fsencode(c)), "path": hx(os.fsencode(a))})
+                exp.append((c, a, got))
+        for (c, a, got), m in zip(exp, drv.ask_many(reqs)):
+            ck.case(("dir", c, a), tags=["requested-dir:" + ("default" if a == "" else "absolute" if a.startswith("/") else "relative")],
+                    sample={"cwd": c, "argument": a, "impl": got})
+            if bytes.fromhex(m["r"]) != os.fsencode(got):
+                ck.disagreement("Model.Cmds.restoreScopeDir vs RestoreArgParser", {"kind": "dir", "cwd": c, "arg": a, "impl": got, "model": m["r"]})
+            canon = lambda q: q == "/" or (q.startswith("/") and not q.startswith("//") and os.path.normpath(q) == q)
+            # oracle (the property's words): the requested directory, default the current one
+            if canon(c):
+                if a == "":
+                    want = c
+                elif a.startswith("/") and canon(a):
+                    want = a
+                elif not a.startswith("/") and a not in (".", "..") and all(x not in ("", ".", "..") for x in a.split("/")):
+                    want = c.rstrip("/") + "/" + a
+                else:
+                    want = None
+                if want is not None and got != want:
+                    ck.violation("requested-directory", {"kind": "dir"}, {"kind": "dir", "cwd": c, "arg": a, "impl": got, "want": want})
         # sorting
         rng = ck.rng
         for _ in range(300 if tier == "quick" else 5000):
